@@ -66,4 +66,5 @@ def run(ctx, rep):
     rep.run(RT.rule_members_in_source_order, ctx, rep, "G16")
     rep.run(RT.rule_namespace_chain_by_evaluation, ctx, rep, "G17")
     rep.run(RT.rule_ctor_stores_what_it_was_given, ctx, rep, "G18")
+    rep.run(RT.rule_nodes_hold_what_was_written, ctx, rep, "G19")
     rep.run(RF.rule_locals_defined, ctx, rep, "U1", packages=("gtwrap/interface_parser",), min_functions=3)
